@@ -127,6 +127,7 @@ def configs(tier):
     for para in (True, False):
         out.append(("qst", StandardQst(pvs, on_para_eq_constraint=para), [qobjs.gen("state", "a", c), qobjs.gen("state", "z0", c)], para))
         out.append(("povmt", StandardPovmt(sts, 2, on_para_eq_constraint=para), [qobjs.gen("povm", "x", c)], para))
+        out.append(("povmt3", StandardPovmt(sts, 3, on_para_eq_constraint=para), [qobjs.povm3_qubit()], para))      # three outcomes on one qubit
         if tier == "thorough" or para:
             out.append(("qpt", StandardQpt(sts, pvs, on_para_eq_constraint=para), [qobjs.gen("gate", "x90", c)], para))
     if tier == "thorough":
@@ -156,6 +157,7 @@ def part_b_c(chk, tier):
                         for mode in modes:
                             tid += 1
                             tag = "%s:%s:%s:%s:%s:%s" % (name, "para" if para else "nopara", dname, family, "fast" if fast else "generic", mode)
+                            cfgk = "%s:%s" % (name, "para" if para else "nopara")
                             case = dict(tag=tag)
                             eps = 1e-9 if mode in MODES[:2] else 1e-6
                             try:
@@ -199,20 +201,20 @@ def part_b_c(chk, tier):
                             for cn, cv in comps.items():
                                 fc = float(loss.value(cv))
                                 if fc < f_est - gap_tol * (1 + abs(f_est)):
-                                    chk.violation("optimum:beaten_by_%s:%s:%s" % (cn.rstrip("012"), name, family),
+                                    chk.violation("optimum:%s:beaten_by_%s:%s" % (cfgk, cn.rstrip("012"), family),
                                                   "loss at the estimate %.9g, at the physical competitor '%s' %.9g [%s]" % (f_est, cn, fc, tag), case)
                             if dname == "exact":
                                 want = np.asarray(tr2.to_var())
                                 if np.max(np.abs(est - want)) > (2e-3 if family == "re" else 5e-4):
-                                    chk.violation("optimum:exact_data:%s:%s" % (name, family), "exact data of a physical object: estimate deviates by %.3g [%s]" % (float(np.max(np.abs(est - want))), tag), case)
+                                    chk.violation("optimum:%s:exact_data:%s" % (cfgk, family), "exact data of a physical object: estimate deviates by %.3g [%s]" % (float(np.max(np.abs(est - want))), tag), case)
                             if mode == MODES[0] and fast and name != "qpt":
                                 cvx = cvxpy_estimate(qt, data, family)
                                 if cvx is not None:
                                     fcv = float(loss.value(cvx))
                                     if abs(fcv - f_est) > 2e-4 * (1 + abs(f_est)) and fcv < f_est:
-                                        chk.violation("optimum:cvxpy_lower:%s:%s" % (name, family), "CVXPY/SCS reaches loss %.9g, backtracking %.9g [%s]" % (fcv, f_est, tag), case)
+                                        chk.violation("optimum:%s:cvxpy_lower:%s" % (cfgk, family), "CVXPY/SCS reaches loss %.9g, backtracking %.9g [%s]" % (fcv, f_est, tag), case)
                                     if np.max(np.abs(cvx - est)) > 5e-2 and abs(fcv - f_est) > 1e-3 * (1 + abs(f_est)):
-                                        chk.violation("optimum:cvxpy_disagrees:%s:%s" % (name, family), "the two estimators disagree: max dev %.3g, losses %.6g / %.6g [%s]" % (float(np.max(np.abs(cvx - est))), fcv, f_est, tag), case)
+                                        chk.violation("optimum:%s:cvxpy_disagrees:%s" % (cfgk, family), "the two estimators disagree: max dev %.3g, losses %.6g / %.6g [%s]" % (float(np.max(np.abs(cvx - est))), fcv, f_est, tag), case)
     # TLC validates the control structure of every recorded run
     tags = {e["tid"]: e.get("tag") for e in events if "tag" in e}
     slim = [{k: v for k, v in e.items() if k != "tag"} for e in events]
